@@ -92,6 +92,8 @@ fn row_alphabet() -> Vec<Row> {
         row(Kind::CancelSell, "Cancel Sell", &us(a), a, "X", "CXL", "4", "$110", "$0.10", "-$439.90"),
         row(Kind::CancelSell, "Cancel Sell", &us(b), b, "X", "CXL", "4", "$110", "", ""),
         row(Kind::Rsu, "Stock Plan Activity", &us(b), b, "X", "RSU", "10", "", "", ""),
+        // a second symbol vesting into the account on the same day (its own vest date and value)
+        row(Kind::Rsu, "Stock Plan Activity", &us(b), b, "Y", "RSU", "3", "", "", ""),
         row(Kind::Dividend, "Cash Dividend", &us(a), a, "X", "DIV", "", "", "", "$5.00"),
         row(Kind::Dividend, "Qualified Dividend", &us(a), a, "X", "QDIV", "", "", "", "$3.00"),
         row(Kind::Dividend, "Cash Dividend", &us(c), c, "X", "DIV", "", "", "", "-$5.00"),
@@ -117,6 +119,7 @@ fn awards_json() -> String {
     // vest on d2 for X (deposit row is dated d2)
     json!({"Transactions": [
         {"Date": us(d2() + CDuration::days(2)), "Action": "Deposit", "Symbol": "X", "TransactionDetails": [{"Details": {"VestDate": us(d2()), "VestFairMarketValue": "$99.50"}}]},
+        {"Date": us(d2()), "Action": "Deposit", "Symbol": "Y", "TransactionDetails": [{"Details": {"VestDate": us(d2() - CDuration::days(1)), "VestFairMarketValue": "$20.25"}}]},
         {"Date": us(d1()), "Action": "Wire Transfer", "Symbol": "X", "TransactionDetails": []}
     ]})
     .to_string()
@@ -140,6 +143,7 @@ fn expected(rows: &[&Row]) -> Expected {
     for r in rows {
         match r.kind {
             Kind::Buy => e.trades.push((true, r.date, r.symbol.clone(), r.qty.unwrap_or_default(), r.price.unwrap_or_default(), r.fees)),
+            Kind::Rsu if r.symbol == "Y" => e.trades.push((true, d2() - CDuration::days(1), r.symbol.clone(), r.qty.unwrap_or_default(), dec("20.25"), Decimal::ZERO)),
             Kind::Rsu => e.trades.push((true, d2(), r.symbol.clone(), r.qty.unwrap_or_default(), dec("99.50"), Decimal::ZERO)),
             Kind::Sell => sells.push((r.date, r.symbol.clone(), r.qty.unwrap_or_default(), r.price.unwrap_or_default(), r.fees)),
             Kind::Dividend => {
@@ -618,26 +622,38 @@ pub fn c19(tier: Tier) -> i32 {
         let offs: [i64; 6] = [-2, 0, 1, 3, 5, 8];
         let gaps: [i64; 7] = [1, 2, 3, 5, 7, 8, 9];
         let dep = alpha::date(2024, 12, 27);
-        let jobs: Vec<(u32, i64, bool)> = (0..(1u32 << offs.len())).flat_map(|m| gaps.iter().flat_map(move |g| [(m, *g, false), (m, *g, true)])).collect();
+        // the second deposit is of the same symbol (a later date) or of another symbol (same or later date) whose
+        // entries are the complementary set of dates with other values
+        let jobs: Vec<(u32, i64, bool, bool)> = (0..(1u32 << offs.len()))
+            .flat_map(|m| gaps.iter().flat_map(move |g| [(m, *g, false, false), (m, *g, true, false), (m, *g, false, true), (m, *g, true, true)]).chain([(m, 0, false, true), (m, 0, true, true)]))
+            .collect();
         let part = jobs
             .par_iter()
-            .fold(Acc::new, |mut acc, (mask, gap, newest_first)| {
+            .fold(Acc::new, |mut acc, (mask, gap, newest_first, other_symbol)| {
                 let present: Vec<i64> = offs.iter().enumerate().filter(|(i, _)| mask & (1 << i) != 0).map(|(_, o)| *o).collect();
+                let present2: Vec<i64> = if *other_symbol { offs.iter().enumerate().filter(|(i, _)| mask & (1 << i) == 0).map(|(_, o)| *o).collect() } else { present.clone() };
+                let sym2 = if *other_symbol { "ABC" } else { "XYZ" };
                 let val = |o: i64| dec(&format!("{}.5", 100 + o + 9));
-                let entries: Vec<Value> = present.iter().map(|o| json!({"Date": us(dep + CDuration::days(*o + 2)), "Action": "Lapse", "Symbol": "XYZ", "TransactionDetails": [{"Details": {"VestDate": us(dep + CDuration::days(*o)), "VestFairMarketValue": format!("${}", val(*o))}}]})).collect();
+                let val2 = |o: i64| if *other_symbol { dec(&format!("{}.25", 200 + o + 9)) } else { val(o) };
+                let mut entries: Vec<Value> = present.iter().map(|o| json!({"Date": us(dep + CDuration::days(*o + 2)), "Action": "Lapse", "Symbol": "XYZ", "TransactionDetails": [{"Details": {"VestDate": us(dep + CDuration::days(*o)), "VestFairMarketValue": format!("${}", val(*o))}}]})).collect();
+                if *other_symbol {
+                    entries.extend(present2.iter().map(|o| json!({"Date": us(dep + CDuration::days(*o + 2)), "Action": "Lapse", "Symbol": "ABC", "TransactionDetails": [{"Details": {"VestDate": us(dep + CDuration::days(*o)), "VestFairMarketValue": format!("${}", val2(*o))}}]})));
+                    acc.bump("two-deposit-exports:two-symbols");
+                }
                 let d2 = dep + CDuration::days(*gap);
-                let mk = |d: NaiveDate, q: &str| json!({"Date": us(d), "Action": "Stock Plan Activity", "Symbol": "XYZ", "Description": "RSU", "Quantity": q, "Price": "", "Fees & Comm": "", "Amount": ""});
-                let rows = if *newest_first { vec![mk(d2, "20"), mk(dep, "10")] } else { vec![mk(dep, "10"), mk(d2, "20")] };
+                let mk = |d: NaiveDate, sym: &str, q: &str| json!({"Date": us(d), "Action": "Stock Plan Activity", "Symbol": sym, "Description": "RSU", "Quantity": q, "Price": "", "Fees & Comm": "", "Amount": ""});
+                let rows = if *newest_first { vec![mk(d2, sym2, "20"), mk(dep, "XYZ", "10")] } else { vec![mk(dep, "XYZ", "10"), mk(d2, sym2, "20")] };
                 let tx = json!({"BrokerageTransactions": rows}).to_string();
                 let awards = json!({"Transactions": entries}).to_string();
-                // reference: each deposit on its own
-                let lookup = |d: NaiveDate| -> Option<(NaiveDate, Decimal)> {
-                    let rel: Vec<i64> = present.iter().map(|o| (dep + CDuration::days(*o) - d).num_days()).collect();
+                // reference: each deposit on its own, among the entries of its own symbol
+                let lookup = |d: NaiveDate, second: bool| -> Option<(NaiveDate, Decimal)> {
+                    let set = if second { &present2 } else { &present };
+                    let rel: Vec<i64> = set.iter().map(|o| (dep + CDuration::days(*o) - d).num_days()).collect();
                     let best = if rel.contains(&0) { Some(0) } else { rel.iter().copied().filter(|r| (-7..=-1).contains(r)).max() }?;
-                    let o = present[rel.iter().position(|r| *r == best)?];
-                    Some((d + CDuration::days(best), val(o)))
+                    let o = set[rel.iter().position(|r| *r == best)?];
+                    Some((d + CDuration::days(best), if second { val2(o) } else { val(o) }))
                 };
-                let want: Vec<Option<(NaiveDate, Decimal, Decimal)>> = vec![lookup(dep).map(|(d, p)| (d, p, dec("10"))), lookup(d2).map(|(d, p)| (d, p, dec("20")))];
+                let want: Vec<Option<(NaiveDate, Decimal, Decimal)>> = vec![lookup(dep, false).map(|(d, p)| (d, p, dec("10"))), lookup(d2, true).map(|(d, p)| (d, p, dec("20")))];
                 acc.states += 1;
                 acc.validated += 1;
                 acc.bump("two-deposit-exports");
